@@ -241,11 +241,15 @@ func (b *bucket) rm(name string, at time.Time) (result gofakes3.ObjectDeleteResu
 		result.IsDeleteMarker = true
 		result.VersionID = item.versionID
 
+	} else if object.versions == nil || object.versions.Len() == 0 {
+		b.objects.Delete(name)
+
 	} else {
-		object.data = nil
-		if object.versions == nil || object.versions.Len() == 0 {
-			b.objects.Delete(name)
-		}
+		// Versioning is suspended but older versions are still archived: the
+		// key must read as deleted without leaving the object without a
+		// current entry (readers dereference object.data).
+		object.data = &bucketData{lastModified: at, name: name, deleteMarker: true, versionID: b.versionGen()}
+		result.IsDeleteMarker = true
 	}
 
 	return result, nil
@@ -260,6 +264,14 @@ func (b *bucket) rmVersion(name string, versionID gofakes3.VersionID, at time.Ti
 		result.VersionID = versionID
 		result.IsDeleteMarker = object.data.deleteMarker
 		object.data = nil
+
+		// The most recently created remaining version becomes current again.
+		if object.versions != nil {
+			if last := object.versions.SeekToLast(); last != nil {
+				object.data = last.Value().(*bucketData)
+				object.versions.Delete(last.Key())
+			}
+		}
 
 	} else if object.versions != nil {
 		versionIface, ok := object.versions.Delete(versionID)
